@@ -17,7 +17,7 @@ import common
 PROP = "C20"
 HEADER = "From Coq Require Import ZArith List.\nImport ListNotations.\nFrom IBL.C20 Require Import Run."
 WHITELIST = sorted(common.STDLIB_AXIOMS)      # used by C20_svd_rank_float_exact (Flocq / Reals) only — enforced in _run
-AXIOM_THEOREMS = {"C20_svd_rank_float_exact"}
+AXIOM_THEOREMS = {"C20_svd_rank_float_exact", "C20_svd_rank_exact_share"}
 TRUSTED = [
     "Coq 8.16.1 kernel + vm_compute (no native_compute); every C20 theorem is closed under the global context except "
     "C20_svd_rank_float_exact (Flocq 4.1 + Reals: ClassicalDedekindReals.sig_forall_dec, sig_not_dec, "
@@ -1456,6 +1456,74 @@ def _run(ctx):
                     continue
                 count("svd_size_sweep_cases")
                 add([9, nc, rank] + coll, obs, desc)
+    # ---- UNEQUAL collections.  The triples (nc, n, rank) on which a re-associated form rank*(n/nc) or (rank/nc)*n
+    # floors one lower (C20_rank_reassociation_sweep) and controls: (1) the integer model of the three binary64 forms
+    # (run kind 12) against the host's floats, (2) the ranks the source passes to _svd_denoise, (3) data of exactly the
+    # requested rank in every collection must come back unchanged
+    BAD = [(22, 15, 22), (23, 13, 23), (26, 15, 26), (39, 31, 39), (43, 23, 43), (43, 31, 43), (44, 15, 44), (44, 30, 22),
+           (44, 30, 44), (45, 13, 45), (45, 26, 45), (46, 13, 46), (46, 26, 23), (46, 26, 46), (47, 3, 47), (47, 6, 47),
+           (47, 12, 47), (47, 24, 47), (47, 31, 47), (49, 1, 49), (49, 2, 49), (49, 4, 49), (49, 8, 49), (49, 16, 49),
+           (49, 27, 49), (49, 32, 49), (50, 29, 50), (51, 31, 51), (52, 15, 52), (52, 30, 26), (52, 30, 52), (55, 7, 55),
+           (55, 14, 55), (55, 15, 55), (55, 28, 55), (55, 29, 55), (55, 30, 55), (55, 31, 55), (58, 31, 58), (384, 208, 216)]
+    ncs = sorted({t[0] for t in BAD if t[0] <= 64}) + [1, 2, 3, 7, 16, 32, 64] if not T else list(range(1, 65))
+    forms = ex.run_many([[12, nc_] for nc_ in ncs])
+    nform_bad = 0
+    for nc_, mo in zip(ncs, forms):
+        exp = []
+        for n_ in range(1, nc_ + 1):
+            for r_ in range(1, nc_ + 1):
+                exp += [int(r_ * n_ / nc_), int(r_ * (n_ / nc_)), int((r_ / nc_) * n_)]
+        count("rank_form_triples", len(exp) // 3)
+        if mo != exp:
+            nform_bad += 1
+            ctx.disagree("the integer model of the binary64 rank expressions differs from the host's floats for nc = %d" % nc_,
+                         {"fn": "rank forms", "nc": nc_})
+    found = sorted((nc_, n_, r_) for nc_ in ncs for n_ in range(1, nc_ + 1) for r_ in range(1, nc_ + 1)
+                   if int(r_ * (n_ / nc_)) != (r_ * n_) // nc_)
+    if found != sorted(t for t in BAD if t[0] in ncs):
+        ctx.disagree("the triples on which rank*(n/nc) floors lower differ from the kernel sweep's list", {"fn": "rank forms"})
+    controls = [(22, 11, 22), (22, 15, 11), (30, 10, 9), (48, 16, 24), (64, 48, 32), (10, 3, 10), (384, 192, 96), (384, 96, 384)]
+    for nc_, n_, r_ in BAD + controls:
+        for layout_ in (0, 1):
+            if layout_ == 0:
+                coll = [0] * n_ + [1] * (nc_ - n_)
+            else:
+                coll = [1] * (nc_ - n_) + [0] * n_
+                if nc_ == 384:
+                    continue
+            desc = {"fn": "svd_denoise_npx(groups)", "collection": coll, "rank": r_, "unequal_collections": [n_, nc_ - n_]}
+            try:
+                obs = svd_groups_observe(coll, r_)
+            except Exception as e:  # noqa
+                ctx.fail("svd_denoise_npx raised %r" % (e,), desc, {"kind": "svd_exception"})
+                continue
+            count("svd_unequal_cases")
+            add([9, nc_, r_] + coll, obs, desc)
+            nontrivial.add(("svd_unequal", nc_, n_, r_, layout_))
+            # data of exactly the share of the rank in each collection
+            g_ = np.random.default_rng(nc_ * 1000 + n_ + r_)
+            ns_ = 40 if nc_ <= 64 else 130
+            d = np.zeros((nc_, ns_))
+            shares = {}
+            for cv in (0, 1):
+                ind = np.where(np.array(coll) == cv)[0]
+                m_ = min((r_ * ind.size) // nc_, ind.size, ns_)
+                shares[cv] = m_
+                if m_ > 0:
+                    d[ind, :] = g_.standard_normal((ind.size, m_)) @ g_.standard_normal((m_, ns_))
+            desc2 = {"fn": "svd_denoise_npx", "nc": nc_, "collection_sizes": [n_, nc_ - n_], "rank": r_,
+                     "data_rank_per_collection": [shares[0], shares[1]], "order": layout_}
+            try:
+                out = svd_checked(d, rank=r_, collection=np.array(coll))
+            except Exception as e:  # noqa
+                ctx.fail("svd_denoise_npx: %s" % (e if isinstance(e, BadOutput) else repr(e)), desc2, {"kind": "svd_exception"})
+                continue
+            err = float(np.max(np.abs(out - d)) / max(np.max(np.abs(d)), 1e-300))
+            meas["svd_unequal_collections_max_rel_err"] = max(meas.get("svd_unequal_collections_max_rel_err", 0.0), err)
+            if not err < 1e-9:
+                ctx.fail("svd_denoise_npx: collections of %d and %d traces carrying data of rank %d and %d, requested rank %d "
+                         "(exact shares): the input does not come back (rel err %g)"
+                         % (n_, nc_ - n_, shares[0], shares[1], r_, err), desc2, {"kind": "svd_identity_unequal"})
     # the float64 expression of the source, int(rank * size / nc), is the exact integer floor (hypothesis of the
     # model's svd_rank): exhaustive for every nc <= 400 (thorough) / 200 (quick), size <= nc, rank <= nc + 2
     bad_triples = 0
@@ -1620,6 +1688,28 @@ def replay(ctx, data):
                 bad.append("non-finite values / length changed")
         except Exception as e:  # noqa
             bad.append("raised %r" % (e,))
+    elif fn == "svd_denoise_npx" and "collection_sizes" in inp:
+        n_, rest = inp["collection_sizes"]
+        nc_, r_ = inp["nc"], inp["rank"]
+        coll = ([0] * n_ + [1] * rest) if inp.get("order", 0) == 0 else ([1] * rest + [0] * n_)
+        g_ = np.random.default_rng(nc_ * 1000 + n_ + r_)
+        ns_ = 40 if nc_ <= 64 else 130
+        d = np.zeros((nc_, ns_))
+        for cv in (0, 1):
+            ind = np.where(np.array(coll) == cv)[0]
+            m_ = min((r_ * ind.size) // nc_, ind.size, ns_)
+            if m_ > 0:
+                d[ind, :] = g_.standard_normal((ind.size, m_)) @ g_.standard_normal((m_, ns_))
+        from ibldsp import voltage
+        out = voltage.svd_denoise_npx(d.copy(), rank=r_, collection=np.array(coll))
+        err = float(np.max(np.abs(out - d)) / np.max(np.abs(d)))
+        obs = svd_groups_observe(coll, r_)
+        model = common.Extracted(PROP).run_many([[9, nc_, r_] + coll])[0]
+        print("implementation: rel err %g; ranks passed: %s; model ranks: %s" % (err, obs[1:2] + obs[obs[2] + 3:obs[2] + 4], model[1:2]))
+        if not err < 1e-9:
+            bad.append("input not returned although every collection gets its exact share of the rank")
+        if obs != model:
+            bad.append("model differs")
     elif fn == "svd_denoise_npx" and "collection_size" in inp:
         from ibldsp import voltage
         ncoll, size, m = inp["collections"], inp["collection_size"], inp["data_rank_per_collection"]
